@@ -4,7 +4,7 @@ disjointness / count properties evaluated independently on the tables the IMPLEM
 Used by checklib/props/c18.py (op kinds alloc, free, adds, wr)."""
 from collections import Counter
 
-KINDS = ("alloc", "free", "adds", "wr")
+KINDS = ("alloc", "free", "adds", "atab", "wr")
 FREE, EOC, FATSECT, DIFSECT = -1, -2, -3, -4
 
 RULE = ("(d) allocation layer: makeFreeSectors / freeSectors / addStream (through lib/comdoc/hooks_verif.go) on synthetic tables: "
@@ -129,6 +129,32 @@ def pred_alloc(f, il):
             return ("alloc_fresh", "every sector free before or beyond the old end", "sector %d was in use" % i)
     if fl != sorted(fl) or any(old[j] == FREE and j not in set(fl) for j in range(min(max(fl, default=0), len(old)))):
         return ("alloc_first_fit", "free entries reused in index order", "a lower free entry was skipped")
+    return None
+
+
+def pred_atab(f, il):
+    """allocTables_counts on what the implementation returned: every block of the table has its FAT sector recorded, the
+    DIFAT list is long enough for the FAT sectors beyond the 109 header slots, the marks agree with the lists"""
+    ss, msat0, ml0, old = int(f[2]), ints(f[3]), ints(f[4]), ints(f[5])
+    spb = ss // 4
+    if il.startswith("panic"):
+        return ("allocTables_counts", "no panic on a regular table", il[:120]) if spb >= 2 and len(old) % spb == 0 else None
+    m = kv(il)
+    sat, msat, ml = ints(m["sat"]), ints(m["msat"]), ints(m["ml"])
+    if len(sat) % spb:
+        return ("allocTables_counts", "table length a multiple of %d" % spb, str(len(sat)))
+    if len(sat) // spb != len(msat):
+        return ("allocTables_counts", "one FAT sector per block: %d" % (len(sat) // spb), "%d FAT sectors recorded" % len(msat))
+    need = max(0, -(-(len(msat) - 109) // (spb - 1)))
+    if need > len(ml):
+        return ("allocTables_counts", ">= %d DIFAT sectors" % need, "%d" % len(ml))
+    if msat[:len(msat0)] != msat0 or ml[:len(ml0)] != ml0 or sat[:len(old)] != [sat[i] if old[i] == FREE else old[i] for i in range(len(old))]:
+        return ("allocTables_frame", "existing entries and lists kept", "changed")
+    new = msat[len(msat0):] + ml[len(ml0):]
+    if len(set(new)) != len(new) or any(not (0 <= x < len(sat)) or (x < len(old) and old[x] != FREE) for x in new):
+        return ("alloc_fresh", "new table sectors were free and are distinct", str(new)[:100])
+    if any(sat[x] != FATSECT for x in msat[len(msat0):]) or any(sat[x] != DIFSECT for x in ml[len(ml0):]):
+        return ("allocTables_counts", "new sectors marked FATSECT / DIFSECT", "marks missing")
     return None
 
 
@@ -336,9 +362,9 @@ def judge(op, il, mres, tag, stats):
     same = (pi and pm) or il == mres
     stats["%s:%s" % (k, "panic" if pi else ("same" if same else "differ"))] += 1
     if not same:
-        out.append(("broken-tie", "Relic.CfbW.%s" % {"alloc": "makeFree", "free": "freeSectors", "adds": "addStream"}[k],
+        out.append(("broken-tie", "Relic.CfbW.%s" % {"alloc": "makeFree", "free": "freeSectors", "adds": "addStream", "atab": "allocTables"}[k],
                     mres[:300], il[:300], "model and lib/comdoc disagree (free list order or table entries)"))
-    bad = {"alloc": pred_alloc, "free": pred_free, "adds": pred_adds}[k](f, il)
+    bad = {"alloc": pred_alloc, "free": pred_free, "adds": pred_adds, "atab": pred_atab}[k](f, il)
     if bad:
         out.append(("counterexample", "Relic.Props.C18." + bad[0], bad[1], bad[2][:300],
                     "evaluated on the tables returned by the implementation"))
